@@ -86,6 +86,21 @@ def subharnesses(tier):
                     'apps': apps, 'event': ['set_valid_until', 0, 1],
                     'sym_valid_until': True, 'sym_expiry': True}
             subs.append(('%s-D1-A3-%s-leased' % (topo, g1.ptag(pl)), spec))
+    # the utilisation cap of an allocation is withdrawn (allocations event):
+    # instances that were beyond it are ordinary running instances again
+    for pl in [(None, 0, 1), (None, 0, 0), (0, 1, None)]:
+        apps = [{'place': j, 'alloc': ['_default', 'cap']} for j in pl]
+        if pl[0] is None:
+            apps[0]['traits'] = 1
+        spec = {'topo': 'T1', 'D': 1, 'servers': [{}, {}],
+                'allocs': [{'path': [], 'label': '_default'},
+                           {'path': ['cap'], 'label': '_default',
+                            'reserved': [2], 'rank': 100,
+                            'max_utilization': 1}],
+                'apps': apps,
+                'event': ['alloc_update', ['_default', 'cap'],
+                          [[2], 100, 0, None]]}
+        subs.append(('T1-D1-A3-%s-cap_withdrawn' % g1.ptag(pl), spec))
     # the rack above a healthy server is frozen / down (the server itself is
     # up) and an instance nobody can take is ahead in the queue
     for st in ('frozen', 'down'):
